@@ -38,8 +38,8 @@ def cmd_of(a):
 def t1(ctx, exe, names, cap):
     lines, scripts, expected_dev, mismatching = [], [], set(), set()
     rnd = random.Random(ctx.seed + 59)
-    for name in names:
-        edges, r = adtb.tlc_edges(ctx, MC, edge_cfg(name), 'edges_' + name)
+    dumps = adtb.tlc_edges_many(ctx, MC, [('edges_' + n, edge_cfg(n)) for n in names])
+    for name, (edges, r) in zip(names, dumps):
         todo, nstates = adtb.edge_paths(edges, lambda s: s['q'] == [] and s['now'] == 0 and s['nextId'] == 1,
                                         avoid=lambda e: e['a'].get('dev'))
         total = len(todo)
@@ -168,8 +168,7 @@ def run(ctx):
     ctx.cov['checks_stopped_by_heavy_event'] = sum(1 for l in lines for e in l['ev'] if e['e'] == 'Check' and e['ret'] == 0)
     ctx.cov['cancels_without_match'] = sum(1 for l in lines for e in l['ev'] if e['e'] == 'Cancel' and e['trap'])
     # 4. TLC decides
-    rejP, reached = adtb.validate(ctx, TP, TP_CFG, lines, 'c59-P')
-    rejI, _ = adtb.validate(ctx, TI, TI_CFG, lines, 'c59-I', count=False)
+    rejP, reached, rejI = adtb.validate_both(ctx, (TP, TP_CFG), (TI, TI_CFG), lines, 'c59')
     ctx.log('TLC validated %d histories (%d edge replays, %d random): P-rejected %d, I-rejected %d' % (
         len(lines), n_t1, len(hs), len(rejP), len(rejI)))
     nknown = 0
